@@ -113,8 +113,12 @@ def validate(seed, report=None, steps=120):
             draws = [rng.random() for _ in range(97)]
             mk = lambda: nasim.envs.NASimEnv(load_scenario(path), fully_obs=fo, flat_actions=fa,
                                             flat_obs=fob)
+            from . import hidden
+            hidden.restore()        # both runs start from the same process-wide state
             real = _trajectory(mk, actions, draws, False, steps)
+            hidden.restore()
             model = _trajectory(mk, actions, draws, True, steps)
+            hidden.restore()
             if len(real) != len(model):
                 raise RuntimeError("lock-step: trajectory lengths differ on %s" % name)
             for i, (x, y) in enumerate(zip(real, model)):
